@@ -34,7 +34,7 @@ Inductive infix_filter := IFTs (f : tsfmt) | IFNum | IFEq (s : bytes) | IFNone.
 Definition r_char : N := 114.
 Definition filter_infix (off : Z) (flt : infix_filter) (infix : bytes) : bool :=
   match flt with
-  | IFTs f => match parse_ts_local f infix with Some _ => true | None => false end
+  | IFTs f => canonical_ts f infix      (* chrono reads it with the format AND the format writes exactly this text *)
   | IFNum => (* 'r' and the number (one or more ASCII digits), nothing else *)
              match infix with
              | a :: d :: ds => (a =? r_char) && forallb is_digit (d :: ds)
